@@ -236,6 +236,9 @@ def check_panel(wd, e, mw, text):
                 return wd.fail("Panel", e, mw, f"title part {mid!r} is not {t!r} aligned {a} in {room} cells")
         else:
             wd.ctx.note("Panel:title-truncated")
+            # a panel is made wide enough for its title whenever the available width allows it
+            if cell_len(t) + 4 <= mw:
+                return wd.fail("Panel", e, mw, f"title {t!r} truncated to {room} cells although {mw} cells are available")
     pad = unpack(o.get("padding", (0, 1)))
     inner_e = ("PAD", list(pad), True, child) if any(pad) else child
     body = lines[1:-1]
